@@ -12,9 +12,13 @@ RULE = ("(a) document engine: a registry of 78 codec entry points (message, pres
         "k=1 mutation closure of D1 is enumerated: every attribute and leaf text is probed with 'zzz' -- sites that keep it are free-text "
         "sites and are driven through the text alphabet {markup that would inject an element, all five metacharacters, 2/3/4-byte UTF-8, "
         "inner double space, ']]>', 4096 chars} with a preservation oracle and a no-injection oracle (element skeleton unchanged); every "
-        "child at depth 1-2 is deleted and duplicated and the unrelated siblings must survive. (b) object engine: integer fields over their "
-        "whole range: parseInt<T> for all 8- and 16-bit values and 32/64-bit bounds incl. rejection just outside, Jingle payload type id/"
-        "channels (all 256 values), IBB sequence, stream-management h. non-trivial = admitted pairs and all mutants")
+        "child at depth 1-2 is deleted and duplicated (thorough: also every pair of siblings deleted) and the unrelated siblings must survive. "
+        "(b) object engine: integer fields over their whole range: parseInt<T> for all 8- and 16-bit values and 32/64-bit bounds incl. "
+        "rejection just outside; a table of 40 integer-typed public fields (Jingle payload type / candidate / crypto / feedback / header "
+        "extension / description, presence priority, result set, IBB, HTTP upload size, RPC fault code, stanza error code and max file "
+        "size, external service port, file metadata, thumbnail, tune length/rating, pubsub node config and subscribe options, entity time "
+        "offset) is set through the public setter over all values (8/16-bit types) or the boundary set of the declared type (every power-"
+        "of-two edge from 2^7 to 2^64), serialised, parsed and read back through the getter. non-trivial = admitted pairs and all mutants")
 ASSUME = ["only sites the codec demonstrably stores as free text are driven through the text alphabet (probing), so nothing is demanded of enumerated/structured fields",
           "values outside the alphabets and more than one simultaneous edit are out of the bound",
           "XHTML-IM bodies are a documented raw write and appear only as corpus seeds"]
@@ -23,7 +27,7 @@ ASSUME = ["only sites the codec demonstrably stores as free text are driven thro
 def run(tier):
     os.environ["VERIF_CORPUS"] = os.path.join(C.VERIF, "corpus", "seeds.jsonl")
     return enum_check(PROP, HARNESS, tier, "exploration", RULE, ASSUME, args=["--opt", "engine=c01", "--opt", "corpus=" + os.environ["VERIF_CORPUS"]],
-                      witness=["admitted_pairs", "free_text_sites", "child_deletions", "child_duplications", "typed_field_checks"])
+                      witness=["admitted_pairs", "free_text_sites", "child_deletions", "child_duplications", "typed_field_checks", "integer_fields"])
 
 
 def replay(path):
